@@ -359,14 +359,17 @@ def nonnull_body_atoms(var, table):
     def f(name):
         return P(var, name)
     if table == "Post":
-        return [T.binop("Gt", f("score"), T.Int(1)), T.binop("Eq", f("title"), T.Str("t0")), T.binop("NotEq", f("score"), T.Int(0))]
+        return [T.binop("Gt", f("score"), T.Int(1)), T.binop("Eq", f("title"), T.Str("t0")), T.binop("NotEq", f("score"), T.Int(0)),
+                # ordering comparisons whose bound IS a stored value (the complement of >= is <, not <=)
+                T.binop("GtE", f("score"), T.Int(2)), T.binop("Lt", T.Int(0), f("score"))]
     if table == "Comment":
         return [T.binop("Gt", f("score"), T.Int(1)), T.binop("Eq", f("text"), T.Str("c0")), f("flag"), T.unop("Not", f("flag")),
-                T.binop("Eq", f("flag"), T.Bool(True))]
+                T.binop("Eq", f("flag"), T.Bool(True)), T.binop("GtE", f("score"), T.Int(2)), T.binop("LtE", f("score"), T.Int(0)),
+                T.binop("Lt", f("score"), T.Int(2))]
     if table == "Blog":
         return [T.binop("Eq", f("title"), T.Str("b1")), T.binop("NotEq", f("title"), T.Str("b0"))]
     if table == "Tag":
-        return [T.binop("Eq", f("weight"), T.Int(2)), T.binop("Eq", f("label"), T.Str("t1"))]
+        return [T.binop("Eq", f("weight"), T.Int(2)), T.binop("Eq", f("label"), T.Str("t1")), T.binop("LtE", f("weight"), T.Int(0))]
     if table == "Person":
         return [T.binop("Eq", f("name"), T.Str("p1"))]
     if table == "City":
